@@ -356,16 +356,65 @@ func ruleSiblingIndex(c *Ctx) {
 	for _, f := range forkPkgs {
 		isFork[f] = true
 	}
+	// helper methods that take the field index as a parameter: method -> (parameter position, the Get/Set it makes with it)
+	type paramOps struct {
+		idx int
+		ops []string
+	}
+	parametric := map[*types.Func]paramOps{}
 	c.P.funcDecls(func(pk *packages.Package, fd *ast.FuncDecl) {
 		if fd.Body == nil || !isFork[pkgShort(pk.Types)] || recvTypeName(fd) != "BeaconStateView" {
 			return
 		}
 		info := pk.TypesInfo
+		self, _ := info.Defs[fd.Name].(*types.Func)
+		ast.Inspect(fd.Body, func(n ast.Node) bool {
+			call, ok := n.(*ast.CallExpr)
+			if !ok || len(call.Args) < 1 || self == nil {
+				return true
+			}
+			sel, ok := call.Fun.(*ast.SelectorExpr)
+			if !ok || (sel.Sel.Name != "Get" && sel.Sel.Name != "Set") {
+				return true
+			}
+			if id, ok := ast.Unparen(call.Args[0]).(*ast.Ident); ok {
+				if k := paramIndex(fd, info, info.Uses[id]); k >= 0 {
+					po := parametric[self]
+					po.idx = k
+					po.ops = append(po.ops, sel.Sel.Name)
+					parametric[self] = po
+				}
+			}
+			return true
+		})
+	})
+	c.P.funcDecls(func(pk *packages.Package, fd *ast.FuncDecl) {
+		if fd.Body == nil || !isFork[pkgShort(pk.Types)] || recvTypeName(fd) != "BeaconStateView" {
+			return
+		}
+		info := pk.TypesInfo
+		if self, ok := info.Defs[fd.Name].(*types.Func); ok {
+			if _, isParam := parametric[self]; isParam {
+				return // compared through its callers
+			}
+		}
 		var names []string
 		ast.Inspect(fd.Body, func(n ast.Node) bool {
 			call, ok := n.(*ast.CallExpr)
 			if !ok || len(call.Args) < 1 {
 				return true
+			}
+			if f := calleeFunc(info, call); f != nil {
+				if po, ok := parametric[f]; ok && po.idx < len(call.Args) {
+					if id, ok := ast.Unparen(call.Args[po.idx]).(*ast.Ident); ok {
+						if _, isConst := info.ObjectOf(id).(*types.Const); isConst {
+							for _, op := range po.ops {
+								names = append(names, op+"("+id.Name+")")
+							}
+						}
+					}
+					return true
+				}
 			}
 			sel, ok := call.Fun.(*ast.SelectorExpr)
 			if !ok || (sel.Sel.Name != "Get" && sel.Sel.Name != "Set") {
